@@ -63,3 +63,7 @@ Theorem C06_dropped_is_zero : forall (R : Type) (R0 R1 : R) (Radd Rmul Rsub : R 
   Inv p -> pzero p = true -> peval R R0 R1 Radd Rmul Ropp rho p = R0.
 Proof. intros. eapply pzero_sound; eassumption. Qed.
 Print Assumptions C06_dropped_is_zero.
+
+(* ---- source pins: the functions whose hand-written model carries the theorems above are still, textually (after
+   ast normalisation), the functions the model was validated against; an edit breaks Bridge/Pins_C06.v ---- *)
+From KV Require Bridge.Pins_C06.
